@@ -113,7 +113,7 @@ def main(argv=None) -> int:
         traceback.print_exc()
         print(f"HARNESS-ERROR property={pid} unexpected exception in the harness")
         return 2
-    return core.finish(ctx)
+    return core.finish(ctx, write_evidence=os.environ.get("VERIF_NOEVIDENCE") != "1")
 
 
 if __name__ == "__main__":
